@@ -163,7 +163,9 @@ def main(run):
     chunk = 10
     groups = [nm[i:i + chunk] for i in range(0, len(nm), chunk)]
     variants = [dict(), dict(region='us-east-1', host='minio.local'), dict(secret='s/+=' * 10, host='127.0.0.1:9877'),
-                dict(clock=datetime.datetime(2031, 12, 31, 23, 59, 59)), dict(clock=datetime.datetime(2032, 1, 1, 0, 0, 0), page=3)]
+                dict(clock=datetime.datetime(2031, 12, 31, 23, 59, 59)), dict(clock=datetime.datetime(2032, 1, 1, 0, 0, 0), page=3),
+                # host spellings that the HTTP client normalises on the wire: upper case, an explicit default port
+                dict(host='S3.Example.Test:9000'), dict(host='minio.local:80')]
     for i, g in enumerate(groups):
         traces.append(session(run, rng, i, g, quick, **variants[i % len(variants)]))
 
